@@ -162,6 +162,13 @@ func run(e *core.Env) {
 	}
 	noteWire := func() {}
 
+	// Records that were delivered intact, per direction, for later replays.
+	var intact [2][][]byte
+	remember := func(r *simnet.Record) {
+		if r.Conn == att.Pair && !r.EOF {
+			intact[r.Dir] = append(intact[r.Dir], append([]byte(nil), r.Data...))
+		}
+	}
 	// ---- traffic with faults ----
 	nSteps := 10 + tp.Intn(60)
 	faults := 0
@@ -181,7 +188,20 @@ func run(e *core.Env) {
 		case 1: // honest delivery of the oldest record of some direction
 			noteWire()
 			if r := cn.ChooseFIFO(tp); r != nil {
+				remember(r)
 				cn.Deliver(r)
+			}
+			// sometimes drain a whole burst in order, so that long intact runs exist
+			if tp.Chance(1, 6) {
+				for k := 0; k < 90; k++ {
+					r := cn.ChooseFIFO(tp)
+					if r == nil {
+						send(tp.Intn(2), 1+tp.Intn(120))
+						continue
+					}
+					remember(r)
+					cn.Deliver(r)
+				}
 			}
 		default: // adversary
 			noteWire()
@@ -203,7 +223,22 @@ func run(e *core.Env) {
 			if r.Dir == 1 {
 				dst = att.Pair.A
 			}
-			switch tp.Intn(9) {
+			switch tp.Intn(11) {
+			case 9, 10: // replay a record that was delivered earlier, at an exact distance behind the newest
+				hist := intact[r.Dir]
+				if len(hist) == 0 {
+					faults--
+					break
+				}
+				d := []int{0, 1, 2, 3, 62, 63, 64, 65, 66, tp.Intn(len(hist))}[tp.Intn(10)]
+				if d >= len(hist) {
+					d = tp.Intn(len(hist))
+				}
+				cn.DeliverBytes(dst, append([]byte(nil), hist[len(hist)-1-d]...), false)
+				e.Fault("replay_old")
+				if d >= 62 && d <= 66 {
+					e.Probe("replay_at_window_edge")
+				}
 			case 0, 1: // flip a bit anywhere: length prefix, header, ciphertext, MAC
 				pos := tp.Intn(len(r.Data))
 				if tp.Chance(1, 3) {
